@@ -69,6 +69,8 @@ class Builder:
                 Attribute(nm.conc(h['n']), undomtok(h['dom']), untok(h['val']), untok(h['nul'])))
         elif a == 'AddConstraint':
             self.model.ctcs.append(Constraint(h['n'], AST(build_node(h['ast'], nm))))
+        elif a == 'ReplaceConstraint':
+            self.model.ctcs[-1].ast = AST(build_node(h['ast'], nm))
         else:
             raise ValueError('unknown builder action ' + a)
         self._event(h)
